@@ -87,3 +87,56 @@ Definition P_upd (i : upd_in) (os : list (list (N * N) * N)) (reads : list N) (b
 (* group: the snapshots of a group member cover every kubernetes binding of the group *)
 Definition P_grp (keys objs : N) (bad : bool) : bool := negb bad && N.eqb objs 2 && N.leb 1 keys.
 Definition T_grp (named : bool) : bool := negb named.
+
+(* ---- bindings with namespace.labelSelector (dynamic namespaces) ----
+   An object matches the binding NOW when its namespace exists and carries the label now, and
+   its name is selected.  At every point where the cluster is quiet and a snapshot is read, the
+   snapshot shows exactly the matching objects of the cluster as it is then - whatever happened
+   before (namespaces that matched when the operator started or restarted, or started matching
+   later, have stopped matching, match again, objects moved between namespaces, ...) - each
+   once, ordered by namespace and name, each as the binding's configuration shows its CURRENT
+   state. *)
+Definition dmatching (names : list N) (c : dcl) (o : obj) : bool :=
+  ns_lab (o_ns o) (snd c)
+  && (match names with [] => true | l => mem_N (o_name o) l end).
+
+Definition P_dsnap_list (names : list N) (c : dcl) (snap : list obj) : bool :=
+  strictly_sorted snap
+  && forallb (fun o => dmatching names c o && mem_obj o (fst c)) snap
+  && forallb (fun o => if dmatching names c o then mem_obj o snap else true) (fst c).
+
+Definition dexpected_view (i : dyn_in) (o : obj) : view :=
+  (o_ns o, o_name o,
+   if dn_filter i then Some (snd o mod 10) else None,
+   if dn_keep i then Some (snd o) else None).
+Definition P_dview_list (i : dyn_in) (c : dcl) (vs : list view) : bool :=
+  v_strictly_sorted vs
+  && forallb (fun v => existsb (fun o => dmatching (dn_names i) c o && view_eqb v (dexpected_view i o)) (fst c)) vs
+  && forallb (fun o => if dmatching (dn_names i) c o then mem_view (dexpected_view i o) vs else true) (fst c).
+
+(* the cluster at the read points of the history (operator restarts do not change the cluster) *)
+Fixpoint read_clusters (c : dcl) (ops : list dop) : list dcl :=
+  match ops with
+  | [] => []
+  | op :: r => let c' := dcl_apply c op in
+               match op with DRead => c' :: read_clusters c' r | _ => read_clusters c' r end
+  end.
+Definition dyn_read_clusters (i : dyn_in) : list dcl := read_clusters (dyn_cluster1 i) (dn_ops i).
+
+Fixpoint all2 {A B} (p : A -> B -> bool) (l : list A) (m : list B) : bool :=
+  match l, m with
+  | [], [] => true
+  | a :: l', b :: m' => p a b && all2 p l' m'
+  | _, _ => false
+  end.
+
+(* one snapshot per read point, each right for the cluster of its point *)
+Definition P_dsnaps (i : dyn_in) (reads : list (list obj)) : bool :=
+  all2 (P_dsnap_list (dn_names i)) (dyn_read_clusters i) reads.
+Definition P_dyn (i : dyn_in) (reads : list (list view)) (bad : bool) : bool :=
+  negb bad && all2 (P_dview_list i) (dyn_read_clusters i) reads.
+
+(* trigger of the namespace-level ghost: a namespace found by the initial namespace list of
+   CreateInformers stops matching before Start (before the namespace informer's own list) *)
+Definition T_nsghost (i : dyn_in) : bool :=
+  match dn_ghost_ns i with Some g => ns_lab g (snd (dyn_cluster0 i)) | None => false end.
